@@ -145,7 +145,7 @@ PROPS["C04"] = dict(
               + _h("weak_h.rs", ["l2_weak_ledger", "c09_drop_from_get_mut", "c09_load_store_swap", "c11_weak_tags"])),
     kani_flags=_FAST, loops=_STUTTER,
     functions_under_contract=_L1_FUNCS + ["Drop for Rc/AtomicRc/Weak/AtomicWeak/NewRcIter", "Rc::finalize", "NewRcIter::abort", "AtomicRc::store", "AtomicWeak::store"],
-    expected_obligations=["C04.lemma.pop_edges_before_drop", "C04.lemma.zero_count_has_pending_attempt", "C04.lemma.zero_weak_has_pending_dealloc", "C04.dec.defers_try_destruct_iff_hit_zero",
+    expected_obligations=["C04.upgrade.failed_upgrade_leaves_no_trace_on_the_count_word", "C04.lemma.pop_edges_before_drop", "C04.lemma.zero_count_has_pending_attempt", "C04.lemma.zero_weak_has_pending_dealloc", "C04.dec.defers_try_destruct_iff_hit_zero",
                           "C04.dec.pending_attempt_handed_to_ebr", "C04.try_destruct.exactly_one_outcome", "C04.free.at_most_once", "C04.cascade.pop_edges_then_drop_once_each",
                           "C04.rc_drop.releases_exactly_one_share", "C04.weak_drop.releases_exactly_one_share", "C04.atomicrc_drop.releases_exactly_its_share", "C07.depth.cap_redefers_exactly_once"],
     trusted_base=[A_TOOLS, A_SC, A_RG, A_EBR, A_RANGE, A_PARAM],
@@ -196,7 +196,7 @@ PROPS["C06"] = dict(
     expected_obligations=["C06.cascade.zero_child_handled_in_same_pass_with_depth_plus_one", "C06.cascade.shared_child_skipped_and_survives", "C06.cascade.child_decremented_exactly_once",
                           "C06.root.always_destructed_in_its_pass", "C06.induction.attempts_is_ceil_n_over_1024", "C06.dispose.enters_cascade_at_depth_zero", "C02.cascade.recent_node_redeferred_exactly_once"],
     trusted_base=[A_TOOLS, A_SC, A_EBR, A_PARAM, "the one-level contract is proved at depth 1023 (chain) and at every depth (leaf); that the child-handling block does not depend on depth other than through `depth + 1` is what the two together establish for the monomorphic function"],
-    assumptions=["epochs-elapsed is not measured (no execution): only the structural reason for the bound is proved - every attempt destructs up to 1024 levels in one pass and leaves at most one deferred attempt, so n nodes cost ceil(n/1024) grace periods of A-EBR", "chains/trees: one outgoing edge per node in the chain harness (tree shapes: thorough tier)"],
+    assumptions=["'links at least a few epochs old' is decided for ages inside the unambiguous 4-bit window (3..13 epochs, C12 window theorem); older stamps alias and err to 'too recent': a link 14-18 epochs old reads as fresh, the merged stamp propagates down, and a chain built one link per epoch is reclaimed one node per epoch (audit observation, natively measured; latency only, never safety) - NOT a contract violation of any function and not detected", "epochs-elapsed is not measured (no execution): only the structural reason for the bound is proved - every attempt destructs up to 1024 levels in one pass and leaves at most one deferred attempt, so n nodes cost ceil(n/1024) grace periods of A-EBR", "chains/trees: one outgoing edge per node in the chain harness (tree shapes: thorough tier)"],
 )
 _L3M_FWD = ["epoch_h.rs", "internal_h.rs", "list_h.rs", "queue_h.rs", "deferred_h.rs"]
 PROPS["C07"] = dict(
@@ -208,7 +208,7 @@ PROPS["C07"] = dict(
     functions_under_contract=["dispose_general_node", "dispose", "Local::{defer,flush,unpin} (deferred functions run only from the outermost unpin, never on top of a deferring frame)"],
     expected_obligations=["C07.depth.cap_redefers_exactly_once", "C07.depth.cap_touches_nothing_else", "C07.depth.child_at_1024_not_destructed_here", "C06.cascade.zero_child_handled_in_same_pass_with_depth_plus_one", "C06.dispose.enters_cascade_at_depth_zero", "C07.depth.recursive_call_passes_depth_plus_one",
                           "C07.defer.never_collects_reentrantly", "C07.flush.never_collects_reentrantly", "C15.unpin.runs_scheduled_collection_from_outermost_unpin"],
-    trusted_base=[A_TOOLS, A_PARAM, "the translation '1025 frames of dispose_general_node fit every legal stack size' depends on frame size and user Drop/pop_edges code and is NOT decidable by contracts"],
+    trusted_base=["audit observation: 1024 frames overflow thread stacks below ~1 MiB (debug) / 256 KiB (release) - measured natively with thread::Builder::stack_size; default 2 MiB / 8 MiB stacks pass", A_TOOLS, A_PARAM, "the translation '1025 frames of dispose_general_node fit every legal stack size' depends on frame size and user Drop/pop_edges code and is NOT decidable by contracts"],
     assumptions=["recursion depth <= 1025 frames is proved (every call at depth >= 1024 returns without recursing, for every depth; the call at 1023 passes 1024; dispose enters at 0; the deferred closure is stored, not run); bytes of stack per frame are not"],
 )
 PROPS["C08"] = dict(
